@@ -1,6 +1,8 @@
 /- The Sender task over a whole queue (C06): nothing queued stops it, every message gets exactly one result, in queue
    order; the sequence numbers it writes are consecutive draws of the generator (C13 at the send path). -/
 import SmppVerif.Lemmas.ClassesEnc
+import SmppVerif.Lemmas.Pdu
+import SmppVerif.Lemmas.Policy
 import SmppVerif.Model.SenderLoop
 
 namespace SmppVerif.Lemmas.SenderLoop
@@ -102,5 +104,130 @@ theorem wire_in_order (dflt : Enc) (ms : List Sm) (gs : Gens) (hok : ∀ m ∈ m
     | cons m rest =>
       simp only [List.zipWith_cons_cons, List.flatMap_cons, List.flatten_cons]
       rw [ih rest (fun x hx => hok x (by simp [hx])) (fun x hx => hin x (by simp [hx]))]
+
+end SmppVerif.Lemmas.SenderLoop
+
+/-! ### the sequence numbers on the wire (C13 at the send path) -/
+
+namespace SmppVerif.Lemmas.SenderLoop
+open SmppVerif SmppVerif.Pdu SmppVerif.Sender SmppVerif.SenderLoop SmppVerif.Policy SmppVerif.Lemmas.Pdu
+  SmppVerif.Lemmas.Policy
+
+/-- the sequence_number field of a PDU (octets 12..15 of the header) -/
+def seqOf (b : List Nat) : Nat := beVal ((b.drop 12).take 4)
+
+/-- `n` further draws -/
+def advance : Nat → SeqGen → SeqGen
+  | 0, g => g
+  | n + 1, g => advance n g.next.1
+
+theorem take_add : ∀ (a b : Nat) (g : SeqGen), g.take (a + b) = g.take a ++ (advance a g).take b
+  | 0, b, g => by simp [SeqGen.take, advance]
+  | a + 1, b, g => by
+    have : a + 1 + b = (a + b) + 1 := by omega
+    rw [this, SeqGen.take, SeqGen.take]
+    simp only [List.cons_append, advance]
+    rw [take_add a b g.next.1]
+
+theorem advance_add : ∀ (a b : Nat) (g : SeqGen), advance (a + b) g = advance b (advance a g)
+  | 0, b, g => by simp [advance]
+  | a + 1, b, g => by
+    have : a + 1 + b = (a + b) + 1 := by omega
+    rw [this, advance, advance, advance_add a b g.next.1]
+
+/-- a submit_sm PDU carries the sequence number it was built with -/
+theorem submit_pdu_seq (dflt : Enc) (m : Sm) (n : Nat) (b : List Nat) (e : Option Enc)
+    (h : pdu dflt (.submitSm { m with seq := (n : Int) }) = .ok (b, e)) : seqOf b = n := by
+  generalize hm : ({ m with seq := (n : Int) } : Sm) = m' at h
+  have hseq : m'.seq = (n : Int) := by rw [← hm]
+  replace h : smPdu dflt Msg.submitSm m' = .ok (b, e) := h
+  unfold smPdu at h
+  cases hb : smBody dflt m' with
+  | error x => rw [hb] at h; cases h
+  | ok pr =>
+    obtain ⟨body, enc⟩ := pr
+    rw [hb] at h
+    dsimp only at h
+    cases hh : packHeader (16 + body.length) (Msg.submitSm m') with
+    | error x => rw [hh] at h; cases h
+    | ok hd =>
+      rw [hh] at h
+      simp only [Except.map, Except.ok.injEq, Prod.mk.injEq] at h
+      obtain ⟨rfl, _⟩ := h
+      obtain ⟨h16, _, _, _, _, h12⟩ := packHeader_spec _ _ hd hh
+      unfold unpackU at h12
+      rw [if_pos (by omega)] at h12
+      simp only [Msg.seq, hseq, Int.toNat_natCast, Except.ok.injEq] at h12
+      unfold seqOf
+      have : ((hd ++ body).drop 12).take 4 = (hd.drop 12).take 4 := by
+        rw [List.drop_append_of_le_length (by omega), List.take_append_of_le_length (by simp; omega)]
+      rw [this, h12]
+
+/-- the PDUs `sendAllG` adds to the wire carry the generator's next numbers, in order; what it leaves in the generator
+    is the state after as many draws as PDUs were attempted -/
+theorem sendAllG_seqs (dflt : Enc) : ∀ (ms : List Sm) (g : SeqGen) (acc : List (List Nat)),
+    ∃ n new, wireOf (sendAllG dflt g ms acc).2 = acc ++ new ∧ (sendAllG dflt g ms acc).1 = advance n g ∧
+      new.map seqOf = g.take new.length ∧ new.length ≤ n
+  | [], g, acc => ⟨0, [], by simp [sendAllG, wireOf], rfl, rfl, Nat.le_refl _⟩
+  | m :: rest, g, acc => by
+    unfold sendAllG
+    dsimp only
+    cases hv : assertValidSequence (g.next.2 : Int) with
+    | error e => exact ⟨1, [], by simp [wireOf], rfl, rfl, by simp⟩
+    | ok u =>
+      dsimp only
+      cases hp : pdu dflt (.submitSm { m with seq := (g.next.2 : Int) }) with
+      | error e => exact ⟨1, [], by simp [wireOf], rfl, rfl, by simp⟩
+      | ok r =>
+        obtain ⟨b, enc⟩ := r
+        dsimp only
+        obtain ⟨n, new, hw, hg, hs, hn⟩ := sendAllG_seqs dflt rest g.next.1 (acc ++ [b])
+        refine ⟨n + 1, b :: new, ?_, ?_, ?_, ?_⟩
+        · rw [hw]; simp
+        · rw [hg]; rfl
+        · have hb := submit_pdu_seq dflt m g.next.2 b enc hp
+          simp only [List.map_cons, List.length_cons, SeqGen.take, hb, hs]
+        · simp; omega
+
+/-- … the same for one iteration of the loop -/
+theorem iterationG_seqs (dflt : Enc) (gs : Gens) (m : Sm) :
+    ∃ n, (iterationG dflt gs m).1.seq = advance n gs.seq ∧
+      ((wireOf (iterationG dflt gs m).2).map seqOf).Sublist (gs.seq.take n) := by
+  unfold iterationG
+  dsimp only
+  cases hp : prepare dflt (if m.autoPayload then (gs.ref, 0) else gs.ref.next).2 m with
+  | error e => exact ⟨0, rfl, by simp [wireOf, SeqGen.take]⟩
+  | ok ms =>
+    dsimp only
+    obtain ⟨n, new, hw, hg, hs, hn⟩ := sendAllG_seqs dflt ms gs.seq []
+    refine ⟨n, hg, ?_⟩
+    rw [hw, List.nil_append, hs]
+    have : n = new.length + (n - new.length) := by omega
+    rw [this, take_add]
+    exact List.sublist_append_left _ _
+
+/-- SEQUENCE NUMBERS ON THE WIRE: over a whole queue the submit_sm PDUs carry, in order, numbers drawn one after the
+    other from the generator (a PDU that could not be built leaves a gap) — so as long as fewer numbers are drawn than the
+    generator's period, no two PDUs carry the same number, also across the wrap-around. -/
+theorem loop_seqs (dflt : Enc) : ∀ (ms : List Sm) (gs : Gens),
+    ∃ n, (((loop dflt gs ms).flatMap wireOf).map seqOf).Sublist (gs.seq.take n)
+  | [], gs => ⟨0, by simp [loop]⟩
+  | m :: ms, gs => by
+    obtain ⟨n1, hg, hs1⟩ := iterationG_seqs dflt gs m
+    unfold loop
+    dsimp only
+    split
+    · obtain ⟨n2, hs2⟩ := loop_seqs dflt ms (iterationG dflt gs m).1
+      refine ⟨n1 + n2, ?_⟩
+      rw [List.flatMap_cons, List.map_append, take_add, ← hg]
+      exact List.Sublist.append hs1 hs2
+    · refine ⟨n1, ?_⟩
+      simpa using hs1
+
+theorem loop_seqs_nodup (dflt : Enc) (ms : List Sm) (gs : Gens) (hinv : SeqInv gs.seq) :
+    ∃ n, (((loop dflt gs ms).flatMap wireOf).map seqOf).Sublist (gs.seq.take n) ∧
+      (n ≤ period gs.seq → (((loop dflt gs ms).flatMap wireOf).map seqOf).Nodup) := by
+  obtain ⟨n, hs⟩ := loop_seqs dflt ms gs
+  exact ⟨n, hs, fun hn => List.Sublist.nodup hs (take_nodup n gs.seq hinv hn)⟩
 
 end SmppVerif.Lemmas.SenderLoop
